@@ -482,6 +482,16 @@ def wrappers(ctx, sspec):
     out.append(("p", lambda src, d=d: SemanticPointer([1.0] + [0.0] * (d - 1)), "novocab", "novocab"))
     out.append(("s", "A", lambda src: TAnyVocab, lambda se, d=d: [0.0] * d, "untyped"))
     out.append(("d", lambda src: spa.State(src, subdimensions=1), "V1", "state"))
+
+    def reinterpreted(src, ents=ents, d=d):
+        # a node of vocabulary `src` whose inner source belongs to ANOTHER vocabulary with the same keys (other vectors):
+        # translate must start from the node's own vocabulary, not from what lies beneath it
+        aux = spa.Vocabulary(d, strict=src.strict, algebra=src.algebra, pointer_gen=np.random.RandomState(11))
+        for kname, vec in ents:
+            aux.add(kname, np.roll(np.array(vec, float), 1) * -1.0)
+        return spa.reinterpret(spa.State(aux, subdimensions=1), src)
+    if ents:
+        out.append(("d", reinterpreted, "V1", "state-reinterpreted"))
     out.append(("d", lambda src, d=d: spa.reinterpret(spa.State(src, subdimensions=1)), f"D{d}", "untyped"))
     out.append(("d", lambda src: spa.Scalar(), "S", "untyped"))
     return out
